@@ -117,9 +117,17 @@ class Recorder:
                 return False
         elif time.time() > self.shrink_deadline:
             raise _StopSearch()
+        trace = os.environ.get("VERIF_TRACE")
+        if trace:
+            # debugging aid: the sequence of cases one worker process executes (history effects between cases)
+            with open(trace, "a") as fh:
+                fh.write(dumps(case) + "\n")
         try:
             rec = fn(case) or {}
         except Violation as v:
+            if trace:
+                with open(trace, "a") as fh:
+                    fh.write("# violation " + (v.key or "") + "\n")
             self._violation(v.key or "default", v.detail, case)
             return False
         except Rejected as r:
